@@ -284,6 +284,7 @@ def run(ctx):
     canon_tie(ctx, records)
     # dimension sweeps: (nearly) every size along every dimension, all of them in the thorough tier, a seeded third in the quick tier
     progcases.run_cases(ctx, gen.sweep_cases(ctx.rng, 1.0 if ctx.tier == "thorough" else 0.34))
+    progcases.run_cases(ctx, gen.huge_flat_cases(ctx.rng, ctx.tier == "thorough"), check_model=False, want_stages=False)
     progcases.run_cases(ctx, gen.membership_cases(ctx.rng, 60 if ctx.tier == 'quick' else 1500), check_model=False, want_stages=False)
     run_k1(ctx)
 
